@@ -499,7 +499,33 @@ impl<'tcx> Ctx<'tcx> {
             first = false;
             esc(&self.ty(d.ty), o);
         }
-        o.push_str("],\"vars\":[");
+        // field names of struct-typed arguments (request / message structs)
+        o.push_str("],\"argfields\":{");
+        let mut first = true;
+        for (l, d) in body.local_decls.iter_enumerated() {
+            if l.as_usize() == 0 || l.as_usize() > body.arg_count {
+                continue;
+            }
+            if let ty::Adt(adt, _) = d.ty.peel_refs().kind() {
+                if adt.is_struct() {
+                    if !first {
+                        o.push(',');
+                    }
+                    first = false;
+                    let _ = write!(o, "\"{}\":[", l.as_usize());
+                    let mut f1 = true;
+                    for f in adt.non_enum_variant().fields.iter() {
+                        if !f1 {
+                            o.push(',');
+                        }
+                        f1 = false;
+                        esc(&f.name.to_string(), o);
+                    }
+                    o.push(']');
+                }
+            }
+        }
+        o.push_str("},\"vars\":[");
         let mut first = true;
         for v in body.var_debug_info.iter() {
             if let mir::VarDebugInfoContents::Place(p) = &v.value {
